@@ -127,6 +127,57 @@ pub fn head_menu_defect_inputs(tier: Tier) -> Vec<Vec<u8>> {
     out
 }
 
+/// FASTQ: a last record that breaks TWO rules at once (wrong start byte and/or wrong separator and/or
+/// unequal lengths, also truncated at every point), after 0-2 valid records. Which of the matching
+/// kinds is reported is left open by the format rules, but it must not depend on the configuration.
+pub fn double_defect_inputs() -> Vec<Vec<u8>> {
+    let mut out = vec![];
+    for nl in ["\n", "\r\n"] {
+        for lead in 0..3usize {
+            for bad_start in [false, true] {
+                for bad_sep in [false, true] {
+                    for longer in [false, true] {
+                        if (bad_start as u8) + (bad_sep as u8) + (longer as u8) < 1 {
+                            continue;
+                        }
+                        let lines: [String; 4] = [
+                            format!("{}ab c", if bad_start { "x" } else { "@" }),
+                            "ACGT".to_string(),
+                            (if bad_sep { "-" } else { "+" }).to_string(),
+                            (if longer { "IIIII" } else { "IIII" }).to_string(),
+                        ];
+                        // cut points: complete (with / without final terminator), after k lines, inside line k
+                        let mut variants: Vec<String> = vec![];
+                        let full: String = lines.iter().map(|l| format!("{}{}", l, nl)).collect();
+                        if (bad_start as u8) + (bad_sep as u8) + (longer as u8) >= 2 {
+                            variants.push(full.clone());
+                            variants.push(full[..full.len() - nl.len()].to_string());
+                        }
+                        if bad_start || bad_sep {
+                            for k in 1..4 {
+                                let upto: String = lines[..k].iter().map(|l| format!("{}{}", l, nl)).collect();
+                                variants.push(upto.clone());
+                                variants.push(format!("{}{}", upto, &lines[k][..1]));
+                            }
+                        }
+                        for v in variants {
+                            let mut d = String::new();
+                            for i in 0..lead {
+                                d += &format!("@p{}{}AC{}+{}II{}", i, nl, nl, nl, nl);
+                            }
+                            d += &v;
+                            out.push(d.into_bytes());
+                        }
+                    }
+                }
+            }
+        }
+    }
+    out.sort();
+    out.dedup();
+    out
+}
+
 impl Family {
     pub fn count(&self) -> u64 {
         match self {
@@ -196,6 +247,10 @@ pub fn families(format: Format, tier: Tier) -> Vec<Family> {
         Family::Recs(recs),
         Family::Recs(long_files(format, true)),
         Family::Raw("header menu (all headers of <= 3 (thorough 4) bytes over {space, TAB, CR, letter, non-UTF-8 byte, '>', '@', '+'} + 5 longer ones)", head_menu_inputs(format, tier)),
+        Family::Raw(
+            "records breaking two rules at once (start / separator / lengths / truncation at every point) after 0-2 valid records",
+            if format == Format::Fastq { double_defect_inputs() } else { vec![] },
+        ),
         Family::Raw(
             "header menu x defect kinds (invalid separator, unequal lengths, truncation after each line)",
             if format == Format::Fastq { head_menu_defect_inputs(tier) } else { vec![] },
@@ -288,6 +343,9 @@ pub fn conformance_totals(prop: &'static str, formats: &[Format], tier: Tier, cf
             let rs = reference(format, &data);
             let nontrivial = (cfg.nontrivial)(&rs);
             let mut first = true;
+            // the error of the invalid record as seen under the first configuration: every other
+            // configuration must report the same kind and the same fields
+            let mut first_err: Option<(ErrObs, String)> = None;
             for cap in capacities(data.len()) {
                 let chs = if cap == 65536 { vec![Chunk::All] } else { chunkings(data.len(), tier) };
                 for ch in chs {
@@ -306,6 +364,24 @@ pub fn conformance_totals(prop: &'static str, formats: &[Format], tier: Tier, cf
                             l.samples.push(json!({"input": esc(&data), "env": format!("{:?}", env), "run": show_run(&run)}));
                         }
                         first = false;
+                        if cfg.err_fields {
+                            if let Some(e) = run.items.iter().find_map(|(i, _)| if let Item::Err(e) = i { Some(e.clone()) } else { None }) {
+                                match &first_err {
+                                    None => first_err = Some((e, format!("{:?}", env))),
+                                    Some((f, fenv)) => {
+                                        if (&f.kind, f.line, f.found, &f.id, f.lens) != (&e.kind, e.line, e.found, &e.id, e.lens) {
+                                            l.violation(Violation {
+                                                property: prop.into(),
+                                                sig: format!("{}|{:?}|error-differs-between-configurations", format.name(), driver),
+                                                detail: format!("input {:?}: {} under {:?}, but {} under {}", esc(&data), e.show(), env, f.show(), fenv),
+                                                weight: (data.len() * 100_000 + cap.min(99_999)) as u64,
+                                                replay: replay_json("next", &data, &env, json!({"driver": format!("{:?}", driver), "observed": show_run(&run)})),
+                                            });
+                                        }
+                                    }
+                                }
+                            }
+                        }
                         let c = StreamCheck { positions: cfg.positions && driver == Driver::Next, err_fields: cfg.err_fields, owned: driver == Driver::Owned };
                         if let Err((sig, why)) = check_stream(&run, &rs, &c) {
                             l.violation(Violation {
@@ -361,7 +437,7 @@ pub fn conformance_totals(prop: &'static str, formats: &[Format], tier: Tier, cf
     }
     }
     let rule = format!(
-        "every input of [{}] x every capacity 3..len+2 and 64 KiB x chunkings (all/1/alt 1-3{}; all compositions for len<=6) x drivers next()/records(); the record-shape family also written to real files and read through from_path / from_path_with_capacity(3 | len); oracle = independent reference parser ({}); non-trivial = {}",
+        "every input of [{}] x every capacity 3..len+2 and 64 KiB x chunkings (all/1/alt 1-3{}; all compositions for len<=6) x drivers next()/records(); the record-shape family also written to real files and read through from_path / from_path_with_capacity(3 | len); oracle = independent reference parser ({}); where error fields are judged, the error must also be the same one (kind and fields) under every configuration of the input; non-trivial = {}",
         names.join("; "),
         if tier == Tier::Thorough { "/2/3" } else { "" },
         cfg.what,
